@@ -2,6 +2,7 @@
 // C12 classical interpolation (sequential + distributed).   usage: mpirun -n P drv_interp <casefile>
 // One result line per case and key; distributed results are gathered rank by rank (emit_all).
 #include "common_par.hpp"
+#include <set>
 
 // rows in storage order: "<k> (col val)*k" per row
 static std::string csr_rows_str(CSRMatrix* S) {
@@ -30,6 +31,44 @@ static CSRMatrix* seq_csr(ParLit& L) {
     CSRMatrix* A = C->to_CSR(); delete C; return A;
 }
 
+// strength matrix with a prescribed pattern, built the way classical_strength builds S: same partition and
+// column maps as A, diagonal of every non-empty row first, communicators shared with A
+static ParCSRMatrix* masked_strength(ParCSRMatrix* A, const std::set<std::pair<int,int> >& mask) {
+    ParCSRMatrix* S = new ParCSRMatrix(A->partition, A->global_num_rows, A->global_num_cols,
+            A->local_num_rows, A->on_proc_num_cols, A->off_proc_num_cols);
+    A->sort(); A->on_proc->move_diag();
+    S->on_proc->idx1[0] = 0; S->off_proc->idx1[0] = 0;
+    for (int i = 0; i < A->local_num_rows; i++) {
+        int gi = A->local_row_map[i];
+        for (int k = A->on_proc->idx1[i]; k < A->on_proc->idx1[i + 1]; k++) {
+            int gj = A->on_proc_column_map[A->on_proc->idx2[k]];
+            if (gj == gi || mask.count(std::make_pair(gi, gj))) { S->on_proc->idx2.push_back(A->on_proc->idx2[k]); S->on_proc->vals.push_back(A->on_proc->vals[k]); }
+        }
+        for (int k = A->off_proc->idx1[i]; k < A->off_proc->idx1[i + 1]; k++) {
+            int gj = A->off_proc_column_map[A->off_proc->idx2[k]];
+            if (mask.count(std::make_pair(gi, gj))) { S->off_proc->idx2.push_back(A->off_proc->idx2[k]); S->off_proc->vals.push_back(A->off_proc->vals[k]); }
+        }
+        S->on_proc->idx1[i + 1] = S->on_proc->idx2.size(); S->off_proc->idx1[i + 1] = S->off_proc->idx2.size();
+    }
+    S->on_proc->nnz = S->on_proc->idx2.size(); S->off_proc->nnz = S->off_proc->idx2.size();
+    S->local_nnz = S->on_proc->nnz + S->off_proc->nnz;
+    S->on_proc_column_map = A->get_on_proc_column_map(); S->local_row_map = A->get_local_row_map();
+    S->off_proc_column_map = A->get_off_proc_column_map();
+    S->comm = A->comm; S->tap_comm = A->tap_comm; S->tap_mat_comm = A->tap_mat_comm;
+    if (S->comm) S->comm->num_shared++;
+    if (S->tap_comm) S->tap_comm->num_shared++;
+    if (S->tap_mat_comm) S->tap_mat_comm->num_shared++;
+    return S;
+}
+static CSRMatrix* masked_strength_seq(ParLit& L, const std::set<std::pair<int,int> >& mask) {
+    std::vector<int> r, c; std::vector<double> v;
+    for (int k = 0; k < L.nnz; k++)
+        if (L.ti[k] == L.tj[k] || mask.count(std::make_pair(L.ti[k], L.tj[k]))) { r.push_back(L.ti[k]); c.push_back(L.tj[k]); v.push_back(L.tv[k]); }
+    COOMatrix* C = new COOMatrix(L.nr, L.nc, r, c, v);
+    CSRMatrix* S = C->to_CSR(); delete C; return S;
+}
+static std::string states_str(const std::vector<int>& st, int n) { std::vector<int> v(st.begin(), st.begin() + n); return ints_str(v); }
+
 static void run_case(const std::string& cid, Toks& t) {
     std::string op = t.next();
     MPI_Barrier(MPI_COMM_WORLD);          // keep the ranks in the same case, so that a crash is attributed to it
@@ -55,6 +94,58 @@ static void run_case(const std::string& cid, Toks& t) {
         delete S; delete A;
         emit0(cid, "SEQ", seq);
         emit_all(cid, "PAR", par);
+    } else if (op == "split") {
+        // sequential library coarsenings on a prescribed strength pattern: cid split <rs|cljp|pmis> ParLit nmask (i j)*
+        std::string method = t.next(); ParLit L; L.parse(t);
+        int nm = t.next_int(); std::set<std::pair<int,int> > mask;
+        for (int k = 0; k < nm; k++) { int i = t.next_int(), j = t.next_int(); mask.insert(std::make_pair(i, j)); }
+        if (g_rank == 0) {
+            CSRMatrix* S = masked_strength_seq(L, mask);
+            std::vector<int> states;
+            std::vector<double> w(L.nr); for (int i = 0; i < L.nr; i++) w[i] = ((i * 7919 + 13) % 1009) / 1009.0;
+            if (method == "rs") split_rs(S, states);
+            else if (method == "cljp") split_cljp(S, states, w.data());
+            else split_pmis(S, states, w.data());
+            emit0(cid, "STATES", states_str(states, L.nr));
+            delete S;
+        }
+    } else if (op == "interp") {
+        // cid interp <direct|modcls|extended> tap ppn nv n vars[n] states[n] ParLit nmask (i j)*
+        std::string kind = t.next(); int tap = t.next_int(); int ppn = t.next_int();
+        int nv = t.next_int(); int n = t.next_int(); std::vector<int> vars = t.ints(n); std::vector<int> states = t.ints(n);
+        ParLit L; L.parse(t);
+        int nm = t.next_int(); std::set<std::pair<int,int> > mask;
+        for (int k = 0; k < nm; k++) { int i = t.next_int(), j = t.next_int(); mask.insert(std::make_pair(i, j)); }
+        if (!L.usable()) return;
+        std::string seq;
+        if (g_rank == 0) {
+            CSRMatrix* A = seq_csr(L); CSRMatrix* S = masked_strength_seq(L, mask); CSRMatrix* P;
+            std::vector<int> st(states);
+            if (kind == "direct") P = direct_interpolation(A, S, st);
+            else if (kind == "modcls") P = mod_classical_interpolation(A, S, st, nv, nv > 1 ? vars.data() : NULL);
+            else P = extended_interpolation(A, S, st, nv, nv > 1 ? vars.data() : NULL);
+            seq = std::to_string(P->n_rows) + " " + std::to_string(P->n_cols) + " " + csr_rows_str(P);
+            delete P; delete S; delete A;
+        }
+        char buf[16]; snprintf(buf, sizeof buf, "%d", ppn); setenv("PPN", buf, 1);
+        ParCSRMatrix* A = L.csr();
+        if (tap) A->init_tap_communicators();
+        ParCSRMatrix* S = masked_strength(A, mask);
+        int f = A->partition->first_local_row;
+        std::vector<int> lst(states.begin() + f, states.begin() + f + A->local_num_rows);
+        if (lst.empty()) lst.reserve(1);
+        std::vector<int> off(S->comm->communicate(lst.data()));          // off_proc_states, as the library's callers obtain them
+        int* lv = (nv > 1) ? vars.data() + f : NULL;
+        ParCSRMatrix* P;
+        if (kind == "direct") P = direct_interpolation(A, S, lst, off, tap != 0);
+        else if (kind == "modcls") P = mod_classical_interpolation(A, S, lst, off, tap != 0, nv, lv);
+        else P = extended_interpolation(A, S, lst, off, 0.0, tap != 0, nv, lv);   // filter_threshold 0: no truncation
+        std::string par = par_rows_str(P) ;
+        std::string dims = std::to_string(P->global_num_rows) + " " + std::to_string(P->global_num_cols) + " " + std::to_string(P->on_proc_num_cols);
+        delete P; delete S; delete A;
+        emit0(cid, "PSEQ", seq);
+        emit_all(cid, "PDIM", dims);
+        emit_all(cid, "PPAR", par);
     } else throw std::runtime_error("unknown op " + op);
 }
 
